@@ -306,7 +306,8 @@ func findColumnInFieldList(selectCol sql.ColumnReference, resultCols storage.Fie
 }
 
 func aggregateRows(selectList sql.SelectList, groupBy []sql.ColumnReference, rows []*storage.Row) ([]*storage.Row, error) {
-	if !selectList.HasAggrFunc() {
+	// GROUP BY groups also when the select list holds no aggregate function
+	if !selectList.HasAggrFunc() && len(groupBy) == 0 {
 		return rows, nil
 	}
 
